@@ -9,7 +9,9 @@ CONSTANTS NSet, TailLen, OutSet, Layer, Kind
 
 VARIABLES n0, avail, s, ready, last
 vars == <<n0, avail, s, ready, last>>
-view == <<n0, avail, s, ready>>
+\* `last` is hidden from the fingerprint, except for whether the step failed a clause: otherwise a failing step that
+\* leaves the rest of the state unchanged would be merged with its predecessor and never be evaluated by Refines
+view == <<n0, avail, s, ready, last.fails # {}>>
 
 Total == IF Kind = "length" THEN n0 + TailLen ELSE n0
 
